@@ -74,6 +74,23 @@ impl PrimK {
     }
 }
 
+/// how a nest of auxiliary `@iterator` objects ends
+#[derive(Clone, Copy, Debug, PartialEq, Eq, Serialize, Deserialize)]
+enum NestFin {
+    Lst,
+    Int,
+    Back,
+}
+impl NestFin {
+    fn name(self) -> &'static str {
+        match self {
+            NestFin::Lst => "lst",
+            NestFin::Int => "int",
+            NestFin::Back => "back",
+        }
+    }
+}
+
 #[derive(Clone, Copy, Debug, PartialEq, Eq, Serialize, Deserialize)]
 enum RV {
     Null,
@@ -89,6 +106,9 @@ enum RV {
     Gen,
     InnerNext,
     InnerIter,
+    /// head of a nest of `d` auxiliary objects n910…, each `@iterator` returning the next one, the
+    /// last returning `fin` (Back: the object the iteration started from — a cycle)
+    Nest(u32, NestFin),
 }
 impl RV {
     fn sexp(self) -> String {
@@ -106,6 +126,7 @@ impl RV {
             RV::Gen => "gen".into(),
             RV::InnerNext => "innernext".into(),
             RV::InnerIter => "inneriter".into(),
+            RV::Nest(d, fin) => format!("nest:{}:{}", d, fin.name()),
         }
     }
     fn koto(self) -> String {
@@ -123,6 +144,10 @@ impl RV {
             RV::Gen => "yield 20".into(), // see beh_body: the function is a generator
             RV::InnerNext => "n900".into(),
             RV::InnerIter => "n901".into(),
+            RV::Nest(0, NestFin::Lst) => "[20, 21]".into(),
+            RV::Nest(0, NestFin::Int) => "5".into(),
+            RV::Nest(0, NestFin::Back) => "self".into(),
+            RV::Nest(..) => "n910".into(),
         }
     }
     /// canonical text of the value when `self` renders as `slf`
@@ -140,6 +165,10 @@ impl RV {
             RV::PMap => "m:?".into(),
             RV::InnerNext => "m:n900".into(),
             RV::InnerIter => "m:n901".into(),
+            RV::Nest(0, NestFin::Lst) => "(l i20 i21)".into(),
+            RV::Nest(0, NestFin::Int) => "i5".into(),
+            RV::Nest(0, NestFin::Back) => slf.to_string(),
+            RV::Nest(..) => "m:n910".into(),
         }
     }
 }
@@ -711,6 +740,38 @@ fn render_opd(o: &Opd, protos: &mut Vec<usize>, out: &mut String) {
 /// `@iterator` returning a list
 const INNER_OBJECTS: &str = "n900 =\n  @next: ||\n    tr('n900', 'Next', self)\n    c = tick 'n900.Next'\n    if c < 2 then 10 + c else null\nreg('n900', n900)\nn901 =\n  @iterator: ||\n    tr('n901', 'Iterator', self)\n    [20, 21]\nreg('n901', n901)\n";
 
+/// the nest an `@iterator` entry of the operand returns, if any
+fn find_nest(o: &Opd) -> Option<(u32, NestFin)> {
+    let m = o.top_meta()?;
+    m.ops.iter().find_map(|(_, mv)| match mv {
+        MV::Fn(Beh::Ret(RV::Nest(d, fin))) | MV::Chain(_, Some(Beh::Ret(RV::Nest(d, fin)))) if *d > 0 => Some((*d, *fin)),
+        _ => None,
+    })
+}
+
+/// definitions of the nest objects n910 … n(909+d); `root`: the variable of the operand (looked up
+/// through the registry when the innermost `@iterator` closes the cycle)
+fn nest_defs(d: u32, fin: NestFin, root: &str) -> String {
+    let mut s = String::new();
+    for i in (1..=d).rev() {
+        let name = 909 + i;
+        let next = if i < d {
+            format!("n{}", name + 1)
+        } else {
+            match fin {
+                NestFin::Lst => "[20, 21]".to_string(),
+                NestFin::Int => "5".to_string(),
+                NestFin::Back => format!("getreg '{}'", root),
+            }
+        };
+        s.push_str(&format!(
+            "n{} =\n  @iterator: ||\n    tr('n{}', 'Iterator', self)\n    {}\nreg('n{}', n{})\n",
+            name, name, next, name, name
+        ));
+    }
+    s
+}
+
 fn render(c: &Case) -> String {
     let mut s = String::new();
     let mut protos = vec![];
@@ -720,6 +781,9 @@ fn render(c: &Case) -> String {
     }
     if s.contains("n900") || s.contains("n901") {
         s = format!("{}{}", INNER_OBJECTS, s);
+    }
+    if let Some((d, fin)) = find_nest(&c.a) {
+        s = format!("{}{}", nest_defs(d, fin, &c.a.var()), s);
     }
     let a = c.a.var();
     let b = c.b.as_ref().map(|b| b.var()).unwrap_or_default();
@@ -860,7 +924,7 @@ impl HostData {
             RV::Str => "r".into(),
             RV::Lst => KValue::List(KList::from_slice(&[20.into(), 21.into()])),
             RV::Tup => KValue::Tuple(vec![KValue::from(20), KValue::from(21)].into()),
-            RV::Iter | RV::Rng | RV::PMap | RV::Gen | RV::InnerNext | RV::InnerIter => KValue::Null,
+            RV::Iter | RV::Rng | RV::PMap | RV::Gen | RV::InnerNext | RV::InnerIter | RV::Nest(..) => KValue::Null,
         }
     }
     /// a value-returning method: overridden with a behaviour, or "unimplemented" like the default
@@ -1347,6 +1411,8 @@ fn classify(e: &koto_runtime::Error) -> String {
                 "E:herr".into()
             } else if s.starts_with("iterator.reversed: the provided iterator isn't bidirectional") {
                 "E:notrev".into()
+            } else if s.starts_with("too many nested @iterator calls") {
+                "E:toonested".into()
             } else if s.starts_with("unexpected key: ") {
                 "E:unexpectedkey".into()
             } else if s.contains("not found in") {
@@ -1449,6 +1515,13 @@ fn run_case(c: &Case, script: &str) -> Result<Outcome, String> {
                     REGISTRY.with(|r| r.borrow_mut().push((n.to_string(), v.clone())));
                 }
                 Ok(KValue::Null)
+            });
+            prelude.add_fn("getreg", |ctx| {
+                let k = match ctx.args() {
+                    [KValue::Str(s)] => s.to_string(),
+                    _ => "?".into(),
+                };
+                Ok(REGISTRY.with(|r| r.borrow().iter().rev().find(|(n, _)| *n == k).map(|(_, v)| v.clone()).unwrap_or(KValue::Null)))
             });
             prelude.add_fn("tick", |ctx| {
                 let k = match ctx.args() {
@@ -1877,23 +1950,8 @@ fn model_matches(model: &str, imp: &str) -> bool {
     false
 }
 
-/// `@iterator` returns the object itself: `make_iterator` recurses without bound (the process dies
-/// with a stack overflow) — kept out of the iteration envelope (since /repo bf483d2 `for` converts
-/// the result with `make_iterator` too, so it is affected as well)
-fn iter_returns_self(o: &Opd) -> bool {
-    o.top_meta().and_then(|m| m.get("Iterator")).is_some_and(|mv| match mv {
-        MV::Fn(Beh::Ret(RV::SelfV)) => true,
-        MV::Chain(_, Some(Beh::Ret(RV::SelfV))) => true,
-        _ => false,
-    })
-}
-
 impl Ctx {
     fn push(&mut self, c: Case) {
-        if matches!(c.op, Op::For | Op::ToList | Op::Reversed) && iter_returns_self(&c.a) {
-            self.rep.bump("skipped=iterator_returns_self");
-            return;
-        }
         self.pending.push(c);
         if self.pending.len() >= 2000 {
             self.flush();
@@ -2023,12 +2081,15 @@ impl Ctx {
         }
         // (D) `for` and the public iterator path see the same sequence
         let has_iter_keys = c.a.top_meta().is_some_and(|m| m.get("Iterator").is_some() || m.get("Next").is_some());
-        if c.op == Op::For && has_iter_keys && !iter_returns_self(&c.a) {
+        if c.op == Op::For && has_iter_keys {
             let c2 = Case { op: Op::ToList, a: c.a.clone(), b: None };
             if let Ok(o2) = run_case(&c2, &render(&c2)) {
                 self.rep.bump("for_vs_tolist_compared");
                 let both_err = o.result.starts_with("E:") && o2.result.starts_with("E:");
-                if o.result != o2.result && !both_err {
+                // `for` evaluates the operand's own `@iterator` outside the nesting limit: exactly at
+                // the limit the public path reports "too many nested" while `for` still succeeds
+                let at_limit = o2.result == "E:toonested";
+                if o.result != o2.result && !both_err && !at_limit {
                     d_failed = true;
                     self.d_failure(c, req, &script, &o, model, "iteration_consistent", "`for` and `iterator.to_list` disagree on the same object".into(), Some(&o2));
                 }
@@ -2036,12 +2097,15 @@ impl Ctx {
         }
         // (D) unpacking (`a, b = x`: MakeIterator + IterNext) sees the first elements of the public iteration
         let only_iterator = c.a.top_meta().is_some_and(|m| m.get("Iterator").is_some() && m.get("Next").is_none());
-        if c.op == Op::For && only_iterator && !iter_returns_self(&c.a) {
+        if c.op == Op::For && only_iterator {
             let mut script2 = String::new();
             let mut protos = vec![];
             render_opd(&c.a, &mut protos, &mut script2);
             if script2.contains("n900") || script2.contains("n901") {
                 script2 = format!("{}{}", INNER_OBJECTS, script2);
+            }
+            if let Some((d, fin)) = find_nest(&c.a) {
+                script2 = format!("{}{}", nest_defs(d, fin, &c.a.var()), script2);
             }
             script2.push_str(&format!("a, b = {}\n[a, b]\n", c.a.var()));
             if let Ok(o2) = run_case(c, &script2) {
@@ -2302,7 +2366,17 @@ fn gen_unary_grid(cx: &mut Ctx) {
         if *key == "Iterator" && *hm == "size" {
             // every kind of value an `@iterator` may return
             opds.clear();
-            for v in [RV::Lst, RV::Tup, RV::Iter, RV::Rng, RV::PMap, RV::Str, RV::Gen, RV::InnerNext, RV::InnerIter, RV::Int(5), RV::Null, RV::Bool(true)] {
+            let mut kinds = vec![RV::Lst, RV::Tup, RV::Iter, RV::Rng, RV::PMap, RV::Str, RV::Gen, RV::InnerNext, RV::InnerIter, RV::Int(5), RV::Null, RV::Bool(true), RV::SelfV];
+            // nests of every depth around the limit (16 levels), cycles, non-iterable innermost values
+            for d in 0..=18u32 {
+                for fin in [NestFin::Lst, NestFin::Int, NestFin::Back] {
+                    if d >= 3 && d <= 13 && fin != NestFin::Lst {
+                        continue;
+                    }
+                    kinds.push(RV::Nest(d, fin));
+                }
+            }
+            for v in kinds {
                 opds.push(obj(0, &[0], &[(key, f(Beh::Ret(v)))]));
                 opds.push(obj(0, &[], &[(key, MV::Chain(vec![20, 21], Some(Beh::Ret(v)))), ("NextBack", f(Beh::Count(1)))]));
             }
@@ -2537,9 +2611,15 @@ fn rand_beh(rng: &mut Rng, key: &str, n: i64) -> Beh {
             1 => Beh::Ret(RV::Null),
             x => Beh::Ret(RV::Bool(x % 2 == 0)),
         },
-        "Iterator" => Beh::Ret(*rng.pick(&[
+        "Iterator" => {
+            let nd = *rng.pick(&[1u32, 2, 3, 14, 15, 16, 17, 18]);
+            let nf = *rng.pick(&[NestFin::Lst, NestFin::Lst, NestFin::Int, NestFin::Back]);
+            Beh::Ret(*rng.pick(&[
             RV::Iter, RV::Tup, RV::Lst, RV::Lst, RV::Rng, RV::PMap, RV::Gen, RV::InnerNext, RV::InnerIter, RV::Int(n), RV::Null, RV::Str,
-        ])),
+            RV::SelfV,
+            RV::Nest(nd, nf),
+        ]))
+        }
         "Display" | "Debug" => Beh::Ret(*rng.pick(&[RV::Str, RV::Str, RV::Str, RV::Int(n), RV::Null])),
         _ => Beh::Ret(*rng.pick(&[RV::Int(n), RV::Int(n), RV::Int(n), RV::Str, RV::Null, RV::SelfV, RV::Bool(true), RV::Lst, RV::Tup])),
     }
